@@ -31,6 +31,40 @@ def special_specs(ctx, n):
     return out
 
 
+def coupled_specs(ctx, n):
+    """constraints that couple two or more parameters (a coordinate-wise mix of two feasible points can be infeasible),
+    long iteration phases, every optimizer that recombines / moves coordinate-wise"""
+    rng = ctx.sub_rng("c02-coupled")
+    names = gen.POPULATION + ["PatternSearch", "PowellsMethod", "DownhillSimplexOptimizer", "DirectAlgorithm", "HillClimbingOptimizer"]
+    out = []
+    for i in range(n):
+        name = names[i % len(names)]
+        nd = rng.choice([2, 2, 3])
+        space = {"x%d" % d: np.arange(rng.choice([6, 8, 11])) for d in range(nd)}
+        allp = gen.all_positions(space)
+        kind = rng.choice(["sum-parity", "diag-band", "halfspace2"])
+        if kind == "sum-parity":
+            m = rng.choice([2, 3])
+            feas = {p for p in allp if sum(p) % m == 0}
+        elif kind == "diag-band":
+            w = rng.choice([2, 3])
+            feas = {p for p in allp if abs(p[0] - p[1]) <= w}
+        else:
+            c = rng.randint(nd * 2, nd * 5)
+            feas = {p for p in allp if sum(p) <= c}
+        if len(feas) * 4 < len(allp):
+            feas = {p for p in allp if sum(p) % 2 == 0}
+            kind = "sum-parity"
+        table, _ = gen.gen_table(rng, space, kind=rng.choice(["unimodal", "random"]))
+        cfg = {}
+        if name in gen.POPULATION:
+            cfg["population"] = rng.choice([4, 5, 6])
+        out.append(dict(name=name, space=space, table=table, feasible=feas, constraint_desc=(kind,),
+                        calls=[dict(n_iter=rng.choice([40, 60]), memory=False, verbosity=False)], seed=rng.randrange(10 ** 6),
+                        init={"random": rng.choice([3, 4])}, cfg=cfg, meta=[("int", "asc", len(v)) for v in space.values()]))
+    return out
+
+
 def monitor(ctx, spec, out):
     name = spec["name"]
     cfg = spec.get("cfg") or {}
@@ -62,11 +96,12 @@ def monitor(ctx, spec, out):
 def run(ctx):
     core_units.run(ctx, which="C02")
     ctx.monitor_rule = ("every parameter set handed to the objective satisfies the constraint (half-spaces, parity / band lattices, "
-                        "random masks; feasible fraction >= 25%), best_para too; all 22 optimizers, both grid directions, "
+                        "random masks, constraints coupling several parameters with long iteration phases; feasible fraction >= 25%), best_para too; all 22 optimizers, both grid directions, "
                         "DownhillSimplex with fewer inits than dims+1, populations larger than the number of inits, repeated "
                         "calls; distinct by (optimizer, seed, constraint)")
     n_fast, n_slow = (72, 8) if ctx.quick else (540, 60)
-    specs = sweep.sweep_specs(ctx, "c02", n_fast, n_slow, constraint=1.0) + special_specs(ctx, 24 if ctx.quick else 160)
+    specs = sweep.sweep_specs(ctx, "c02", n_fast, n_slow, constraint=1.0) + special_specs(ctx, 24 if ctx.quick else 160) \
+        + coupled_specs(ctx, 33 if ctx.quick else 220)
     for spec in specs:
         if spec.get("feasible") is None:
             continue
